@@ -1,6 +1,7 @@
 """C18 — value normalisation never changes what a value denotes."""
 
 import re
+import xml.dom
 from fractions import Fraction
 
 from hypothesis import strategies as st
@@ -21,7 +22,10 @@ RULE = (
     'and URLs over printable ASCII, both quotes, parentheses, white space incl. CR/LF/FF/TAB, non-ASCII, written with '
     'either quote, hex escapes and escaped quotes; content must survive parse -> serialise -> parse and equal the typed '
     'accessor. list: component lists with space/comma/slash separators keep order and separators under all spacer '
-    'preferences. Non-trivial: number with fraction and (leading-zero omission, sign or trailing zeros); colour in '
+    'preferences. pairs: strings and quoted URLs whose content holds backslashes written as escaped pairs (0-3 of them at the very '
+    'end, next to quotes, spaces, digits): an independent CSS string decoder applied to the written token must give the content of '
+    'the source token; the written token is a fixpoint and survives inside a sheet. Integers of up to 25 digits are exact. '
+    'Non-trivial: number with fraction and (leading-zero omission, sign or trailing zeros); colour in '
     'function form; text containing quote, parenthesis or white space; distinct by source literal.'
 )
 ASSUMPTIONS = [
@@ -39,7 +43,8 @@ UNITS = LENGTH_UNITS + ['deg', 'rad', 'grad', 'ms', 's', 'hz', 'khz', 'dpi', 'dp
 def number_case(draw):
     sign = draw(st.sampled_from(['', '', '+', '-']))
     lead = draw(st.sampled_from(['', '', '0', '00']))
-    ndig = draw(st.integers(0, 12))
+    # integers of any magnitude are exact (Python int); beyond 2**53 a detour through a double would show
+    ndig = draw(st.integers(0, 12)) if draw(st.integers(0, 4)) else draw(st.integers(13, 25))
     intpart = draw(st.text('0123456789', min_size=ndig, max_size=ndig))
     nfrac = draw(st.integers(0, 6))
     frac = draw(st.text('0123456789', min_size=nfrac, max_size=nfrac))
@@ -557,3 +562,119 @@ def bignum_cases(tier):
 
 SUBS.append(Sub('backslash', check_backslash, enumerate=backslash_cases, shards_quick=1, shards_thorough=1))
 SUBS.append(Sub('bignum', check_number, enumerate=bignum_cases, shards_quick=1, shards_thorough=1))
+
+
+# --------------------------------------------------------------------------- backslashes written as escaped pairs (the form that works)
+
+HEXD = '0123456789abcdefABCDEF'
+
+
+def css_unescape(body):
+    """content denoted by the inside of a CSS string or quoted URL (independent decoder)"""
+    out, i, n = [], 0, len(body)
+    while i < n:
+        c = body[i]
+        if c != '\\':
+            out.append(c)
+            i += 1
+            continue
+        if i + 1 >= n:
+            i += 1
+            continue
+        d = body[i + 1]
+        if d in HEXD:
+            j = i + 1
+            while j < n and j - i - 1 < 6 and body[j] in HEXD:
+                j += 1
+            out.append(chr(int(body[i + 1:j], 16)))
+            if body[j:j + 2] == '\r\n':
+                j += 2
+            elif j < n and body[j] in ' \t\r\n\f':
+                j += 1
+            i = j
+        elif d in '\n\f':
+            i += 2
+        elif d == '\r':
+            i += 3 if body[i + 2:i + 3] == '\n' else 2
+        else:
+            out.append(d)
+            i += 2
+    return ''.join(out)
+
+
+def token_content(tok):
+    t = tok.strip()
+    if t[:4].lower() == 'url(':
+        t = t[4:-1].strip()
+    if t[:1] in '"\'':
+        return css_unescape(t[1:-1])
+    return css_unescape(t)
+
+
+@st.composite
+def pairs_case(draw):
+    atoms = draw(st.lists(st.sampled_from(['a', 'b', ' ', 'BS', 'BS', 'DQ', 'SQ', '1', 'é']), min_size=0, max_size=6))
+    tail = draw(st.integers(0, 3))  # escaped backslashes at the very end
+    form = draw(st.sampled_from(['dq', 'sq', 'url-dq', 'url-sq']))
+    q = '"' if 'dq' in form else "'"
+    body = ''
+    for a in atoms + ['BS'] * tail:
+        if a == 'BS':
+            body += '\\\\'
+        elif a == 'DQ':
+            body += '\\"' if q == '"' else '"'
+        elif a == 'SQ':
+            body += "\\'" if q == "'" else "'"
+        else:
+            body += a
+    src = q + body + q
+    if form.startswith('url'):
+        src = 'url(' + src + ')'
+    return {'src': src, 'form': form, 'omit': draw(st.booleans())}
+
+
+def check_pairs(case, ctx):
+    src = case['src']
+    want = token_content(src)
+    saved = cssutils.log.raiseExceptions
+    cssutils.log.raiseExceptions = True
+    try:
+        with lib('text'):
+            pv = PropertyValue(src)
+            if len(pv) != 1:
+                raise Violation('pairs:not-one-value', f'{src!r} -> {pv.cssText!r}')
+            out = pv.cssText
+        try:
+            with lib('reparse', expect=(xml.dom.DOMException,)):
+                pv2 = PropertyValue(out)
+                out2 = pv2.cssText
+                n2 = len(pv2)
+        except xml.dom.DOMException as e:
+            raise Violation('pairs:output-does-not-parse', f'{src!r} -> {out!r}: {e}')
+        try:
+            got = token_content(out)
+        except Exception:  # noqa: BLE001
+            raise Violation('pairs:output-not-a-token', f'{src!r} -> {out!r}')
+        if got != want:
+            raise Violation('pairs:content-changed', f'{src!r} denotes {want!r}; written {out!r} denotes {got!r}')
+        if n2 != 1 or out2 != out:
+            raise Violation('pairs:output-not-a-fixpoint', f'{src!r} -> {out!r} -> {out2!r}')
+        # inside a sheet
+        with lib('sheet'):
+            sh = cssutils.parseString('a { content: %s; top: 0 }' % src if not src.startswith('url') else 'a { background: %s; top: 0 }' % src)
+            st_ = sh.cssRules[0].style
+            if st_.length != 2:
+                raise Violation('pairs:declaration-lost-in-sheet', f'{src!r}: {sh.cssText!r}')
+            re_ = cssutils.parseString(sh.cssText)
+            if re_.cssRules.length != 1 or re_.cssRules[0].style.length != 2 or re_.cssText != sh.cssText:
+                raise Violation('pairs:sheet-round-trip', f'{src!r}: {sh.cssText!r} -> {re_.cssText!r}')
+    finally:
+        cssutils.log.raiseExceptions = saved
+    nbs = want.count('\\')
+    ctx.event('backslashes:%d' % min(nbs, 4))
+    if want.endswith('\\'):
+        ctx.event('ends-with-backslash')
+    ctx.case(src, nbs >= 1, {'source': src, 'content': want, 'output': out})
+
+
+SUBS.append(Sub('pairs', check_pairs, strategy=pairs_case(), quick=6000, thorough=300000, shards_quick=4))
